@@ -18,7 +18,7 @@ struct VC { @builtin(vertex_index) c0: u32, @builtin(instance_index) c1: u32 }
 @vertex fn e3(p: VC, q: VA) -> @builtin(position) vec4<f32> { return vec4<f32>(0.0); }
 @vertex fn e0(p: VA, q: VB) -> @builtin(position) vec4<f32> { return vec4<f32>(0.0); }
 @vertex fn e1(p: VB) -> @builtin(position) vec4<f32> { return vec4<f32>(0.0); }
-@vertex fn e2(q: VB, @builtin(instance_index) ii: u32, p: VA) -> @builtin(position) vec4<f32> { return vec4<f32>(0.0); }
+@vertex fn e2(q: VB, @location(30) extra: f32, p: VA) -> @builtin(position) vec4<f32> { return vec4<f32>(0.0); }
 @group(0) @binding(0) var<storage, read> gl: array<VB, 2>;
 var<private> gp: array<VA, 2>;
 @fragment fn fs() {}
@@ -268,9 +268,6 @@ def render(spell, bv, B_, roles=None):
         if n == 'a1' and 'a1' not in bv:
             pass
         src = src.replace(f'{dattr[n]} {n}: {default[n]}', f'{attr} {n}: {ty}')
-    # e2 already takes instance_index as a parameter; avoid a duplicate builtin by dropping that parameter when a member uses it
-    if '@builtin(instance_index) a' in src or '@builtin(instance_index) b' in src:
-        src = src.replace('@builtin(instance_index) ii: u32, ', '')
     return src
 
 
